@@ -2,7 +2,7 @@
    This file only restates the property theorems; the model is hand/Handler.v, the proofs are in
    hand/HandlerProofs.v, hand/HandlerExtra.v, hand/PosElem.v and hand/HandlerMore.v.  encoding/json is not modelled:
    `decode`, `zero`, `decode_elt`, `decode_into`, `encode` are universally quantified oracles. *)
-From Coq Require Import List NArith Bool.
+From Coq Require Import List NArith Bool Arith.
 From JV Require Import Bytes Handler HandlerProofs HandlerExtra PosElem HandlerMore.
 Import ListNotations.
 
@@ -221,9 +221,26 @@ Theorem c16_obj_frame :
 Proof. exact obj_unmarshal_keys. Qed.
 Print Assumptions c16_obj_frame.
 
-(* One Positional handler used for many requests answers every request by itself (what the
-   answer is: c16_positional_accepts_exactly / c16_positional_wrap); nothing decoded for an
-   earlier or a concurrent request - accepted or rejected - can show up in a call. *)
+(* Calls of one Positional handler do not interfere: it decodes into a scratch variable of the
+   synthetic struct type, one per call; under any interleaving sch of the steps of the calls for
+   the requests ps (the machine `mrun` of hand/HandlerMore.v, see c15_calls_do_not_interfere) a
+   call that has finished finished with wrap's answer to its own params (what that answer is:
+   c16_positional_accepts_exactly / c16_positional_wrap), and three steps finish it. *)
+Theorem c16_calls_do_not_interfere :
+  forall (decode : ty -> bool -> pvalue -> option value) (zero : ty -> value) xs outs names fi ps sch,
+    xs <> [] -> positional (FFunc (TCtx :: xs) false outs) names = Ok fi ->
+    scratch_type fi = Some (pos_struct names xs) /\
+    forall i p, nth_error ps i = Some p ->
+      (forall o, nth_error (m_pcs (mrun decode zero fi false ps sch)) i = Some (PcDone o) ->
+         o = wrap decode zero fi p) /\
+      (3 <= count_occ Nat.eq_dec sch i ->
+         nth_error (m_pcs (mrun decode zero fi false ps sch)) i = Some (PcDone (wrap decode zero fi p))).
+Proof. exact positional_no_interference. Qed.
+Print Assumptions c16_calls_do_not_interfere.
+
+(* A fact about `map` (serve is defined as `map (wrap fi)`; the premise is not used): it holds of
+   every function and carries no information about the code.  The statement with content is
+   c16_calls_do_not_interfere. *)
 Theorem c16_calls_independent :
   forall (decode : ty -> bool -> pvalue -> option value) (zero : ty -> value) xs outs names fi ps1 p ps2,
     positional (FFunc (TCtx :: xs) false outs) names = Ok fi ->
